@@ -97,6 +97,7 @@ Lemma reroot_outgroup_inv remove strict t names t' :
     root_edge (tv_tree v) p es = Ok (pp, ks, lower).
 Proof.
   unfold reroot_outgroup. intros H. cbv zeta in *.
+  destruct (Nat.ltb (length (tips t)) 3); [discriminate|].
   set (t1 := unroot t) in *. set (grp := group t1 names) in *.
   destruct (has_dup (node_names t1)) eqn:Hdup; [discriminate|].
   destruct (Nat.eqb (length grp) 0) eqn:Hk; [discriminate|].
